@@ -74,7 +74,7 @@ H2_CONSTS = ["DEFAULT_MAX_PING_LIFETIME", "DEFAULT_MAX_SETTINGS_LIFETIME"]
 
 TRANSLATE_FALLBACK = (
     "only three facts are ever reported as unreadable, each observed by what the check runs anyway (tested with breaking "
-    "variants in unrecognisable spellings, corpus/C15/unreadable_variants.txt): the "
+    "variants in unrecognisable spellings, harmless/C15_mine_{d,e,f}_* and corpus/C15/blackbox_scenarios.txt): the "
     "stream-id legality table by the decode / encode cases of the in-process driver (every frame type with stream id 0, 1 and "
     "2^31-1, every type byte 0..0x10 and unknown ones, harness/src/bin/c15.rs `dec` / `enc`); the order, thresholds and "
     "strictness of check_flood by the `flood` cases (each counter set to threshold and threshold+1 through the hook, alone and "
